@@ -29,9 +29,13 @@ def run(tier, replay=None):
     lay = [c for c in lay if c["lay"] != 0]
     if tier == "quick" and len(lay) > 1500:
         lay = rnd.sample(lay, 1500)
-    cases = small + four + lay
+    # a second import of the shared module in the same file, after its state has changed (both forms), <= 3 modules
+    again, ga = gen.run_generator("GenMod", work / "gena", dict(MaxMods=3), cfg="GenModA", timeout=1200)
+    if tier == "quick" and len(again) > 1500:
+        again = rnd.sample(again, 1500)
+    cases = small + four + lay + again
     for c in cases:
-        c["id"] = (f"sub>={c['lay']} " if c.get("lay") else "") + f"n={c['n']} bare={[k + 1 for k, b in enumerate(c['bare']) if b]} " + " ".join(f"{e['i']}>{e['j']}:{e['form'][0]}{e['spell'][0]}{e['place'][0]}" for e in c["edges"])
+        c["id"] = (f"sub>={c['lay']} " if c.get("lay") else "") + (f"again={c['again']} " if c.get("again", "none") != "none" else "") + f"n={c['n']} bare={[k + 1 for k, b in enumerate(c['bare']) if b]} " + " ".join(f"{e['i']}>{e['j']}:{e['form'][0]}{e['spell'][0]}{e['place'][0]}" for e in c["edges"])
     cases = gen.dedupe(cases, lambda c: c["id"])
     C.log(f"[{PID}] {len(cases)} projects")
     dis, skips, st = l1.run_cases(binary, work, cases, trace=True)
@@ -88,7 +92,7 @@ def run(tier, replay=None):
         states=st["states"] + g1.distinct + tv.distinct, transitions=st["transitions"] + g1.generated + tv.generated,
         traces_validated_against_impl=len(traces), traces_accepted=len(acc), programs=len(cases), executions=2 * len(cases),
         evaluations=len(cases), distinct_nontrivial=sum(1 for c in cases if len(c["edges"]) >= 2),
-        rule="GenMod.tla: (a) every import DAG over 4 modules with plain spelling and early placement (quick: seeded sample of 1500) and (b) every import DAG over <= 3 modules (entry .. shared counter module) x import form per edge x path spelling (m / ./m) x placement of each import before/after the importer's first side effect; non-trivial = at least two import edges",
+        rule="GenMod.tla: (a) every import DAG over 4 modules with plain spelling and early placement (quick: seeded sample of 1500) and (b) every import DAG over <= 3 modules (entry .. shared counter module) x import form per edge x path spelling (m / ./m) x placement of each import before/after the importer's first side effect and (c) the DAGs over <= 3 modules with a second import of the shared module (by name / as a module) in every importer after its state has changed; non-trivial = at least two import edges",
         exhaustive=True, out_of_model=len(skips),
         samples=[dict(id=c["id"], out=c["obs"][0]["out"]) for c in cases[:: max(1, len(cases) // 3)][:3]],
     )
